@@ -169,7 +169,11 @@ def bounded_files(sess: Session):
         headers = [['ili', 'status', 'definition'], ['ILI', 'Status', 'Definition'], ['ILI', 'STATUS', 'DEFINITION'],
                    ['ili', 'definition'], ['ili'], ['ili', 'status', 'definition', 'extra'], ['ILI', 'status']]
         rowsets = [[], [['i1', 'active', 'a def']], [['i1', 'deprecated', ''], ['i2', 'provisional', 'x y']],
-                   [['i1']], [['i1', 'other', 'd', 'more']]]
+                   [['i1']], [['i1', 'other', 'd', 'more']],
+                   # the file is plain tab-separated text, not CSV: quote characters are data
+                   [['i1', 'active', '"quoted" definition'], ['i2', 'active', '"unbalanced quote at the start'],
+                    ['i3', 'active', 'plain'], ['i4', 'active', 'ends with a quote"']],
+                   [['i1', 'active', "it's; a, b"], ['i2', 'active', 'back\\slash and  two  spaces']]]
         for header, rows, nl in itertools.product(headers, rowsets, ('\n', '\r\n')):
             path = os.path.join(tmp, 'ili.tsv')
             with open(path, 'w', newline='') as fh:
@@ -191,7 +195,7 @@ def bounded_files(sess: Session):
     finally:
         import shutil
         shutil.rmtree(tmp, ignore_errors=True)
-    sess.add_bounded('wn._ili.load / is_ili', '7 header variants (case, missing/extra columns) x 5 row sets x 2 line '
+    sess.add_bounded('wn._ili.load / is_ili', '7 header variants (case, missing/extra columns) x 7 row sets (incl. quote characters) x 2 line '
                      'endings; 5 signature cases', cases, 'generated files', not bad)
     if bad:
         sess.violation_direct('wn._ili.load:columns', 'the index file is not read column by column (header names '
